@@ -44,7 +44,17 @@ fn plant(u: &Value, at: &Path, name: &str, val: &Value, first: bool) -> Value {
 
 pub fn one(u: &Value, strat: &Strat, cfg: &Cfg, must_refuse: bool, l: &mut Local) {
     l.evals += 1;
-    let out = pipeline::issue_raw(u, strat, cfg);
+    // the same call twice on ONE issuer instance: a refusal must not be forgotten, a control not poisoned
+    let alg_arg = Some(cfg.alg.name());
+    let mut issuer = crate::drive::new_issuer(crate::keys::issuer_enc(cfg.alg, 0), alg_arg);
+    let first = crate::drive::issue(&mut issuer, u, strat, cfg.hk.jwk(0), cfg.decoys, cfg.fmt);
+    let out = crate::drive::issue(&mut issuer, u, strat, cfg.hk.jwk(0), cfg.decoys, cfg.fmt);
+    if first.class() != out.class() {
+        let mut case = pipeline::case_json("reserved", u, strat, cfg, None);
+        case["must_refuse"] = json!(must_refuse);
+        l.violation(Violation::new("issue", "second_call_differs", "c13_repeat_on_same_instance", if must_refuse { "planted" } else { "control" }, format!("first call {}, second call {}", first.class(), out.class()), case));
+        return;
+    }
     let mk = |class: &str, site: String, detail: String| {
         let mut case = pipeline::case_json("reserved", u, strat, cfg, None);
         case["must_refuse"] = json!(must_refuse);
